@@ -7,15 +7,37 @@ from vlib import *
 OVERLAY = {"p2p/net/swarm/zz_c12_verif_test.go": "harness/overlay/swarm/c12_verif_test.go"}
 
 
+OVERLAY_HP = {"p2p/protocol/holepunch/zz_c12_hp_verif_test.go": "harness/overlay/holepunch/c12_hp_verif_test.go"}
+
+
 def harness(ctx, casefile, tier, seed):
-    return ctx.go_test("p2p/net/swarm", "TestVerifC12$", OVERLAY,
-                       env={"VERIF_OUT": casefile, "VERIF_TIER": tier, "VERIF_SEED": str(seed)}, timeout=2400)
+    """two in-package runs (swarm scenarios, hole-punch decisions); their case files are concatenated"""
+    parts = [("p2p/net/swarm", "TestVerifC12$", OVERLAY), ("p2p/protocol/holepunch", "TestVerifC12HP$", OVERLAY_HP)]
+    rc_all, out_all, cov = 0, "", {}
+    with open(casefile, "w") as dst:
+        for i, (pkg, run, ov) in enumerate(parts):
+            part = casefile + ".part%d" % i
+            for p in (part, part + ".cov"):
+                if os.path.exists(p):
+                    os.remove(p)
+            rc, out = ctx.go_test(pkg, run, ov, env={"VERIF_OUT": part, "VERIF_TIER": tier, "VERIF_SEED": str(seed)}, timeout=2400)
+            rc_all = rc_all or rc
+            out_all += out
+            if os.path.exists(part):
+                dst.write(open(part).read())
+            for k, v in read_cov(part).items():
+                cov[k] = cov.get(k, 0) + v
+    with open(casefile + ".cov", "w") as f:
+        for k in sorted(cov):
+            f.write("%s %d\n" % (k, cov[k]))
+    return rc_all, out_all
 
 
 def warm(ctx):
-    rc, out = ctx.go_test("p2p/net/swarm", "TestVerifC12Nothing$", OVERLAY, timeout=1500)
-    if rc != 0:
-        ctx.obligations.append(("harness:compile", False, out[-1500:]))
+    for pkg, run, ov in [("p2p/net/swarm", "TestVerifC12Nothing$", OVERLAY), ("p2p/protocol/holepunch", "TestVerifC12HPNothing$", OVERLAY_HP)]:
+        rc, out = ctx.go_test(pkg, run, ov, timeout=1500)
+        if rc != 0:
+            ctx.obligations.append(("harness:compile:" + pkg, False, out[-1500:]))
 
 
 def replay_harness(ctx, casefile, toks):
@@ -99,6 +121,11 @@ def describe(t):
                     op_str(op), ob["nw"], {0: "NotConnected", 1: "Connected", 2: "Limited"}.get(ob["cn"], ob["cn"]),
                     ",".join(("L" if f & 1 else "-") + ("P" if f & 2 else "-") + ("u" if f & 4 else "x") for f in ob["conns"]),
                     ", ".join(st_str(s) for s in ob["calls"]), ob["dials"]) for op, ob in parse_swarm(t)][:40]}
+    if t and t[0] == 1:
+        sub = {1: "getDirectConnection", 2: "Service.handleNewStream (receiver)", 3: "holePuncher.directConnect (initiator)",
+               4: "netNotifiee.Connected"}.get(t[1], "?")
+        return {"kind": "hole-punch decision: " + sub, "raw": t[1:160],
+                "format": "see coq/c12/SpecHP.v; address flag = relay + 2*public; events 10 force sim | 11 allow nodial | 12 force sim client m flags"}
     return {"raw": t[:120]}
 
 
@@ -106,7 +133,8 @@ def nontrivial(line):
     # a swarm case is non-trivial when some call had to wait for a direct connection or a dial was parked
     t = line.split()
     if t[0] != b"0":
-        return True
+        # hole punch: a case in which the host was asked for something (NewStream / Connect), or a conn was found
+        return t[1] != b"4" and (b"10" in t or b"11" in t or b"12" in t)
     steps = parse_swarm([int(x) for x in t])
     return any(any(s[0] in (1, 3) for s in ob["calls"]) for _, ob in steps)
 
@@ -118,6 +146,8 @@ def key(tag, toks, d):
         clause = d[2] if len(d) > 2 else 0
         steps = parse_swarm(toks)[:idx + 1]
         return "C12:swarm:clause=%d:%s" % (clause, "|".join(" ".join(map(str, op)) for op, _ in steps))
+    if toks and toks[0] == 1:
+        return "C12:holepunch:sub=%d:%s" % (toks[1], " ".join(map(str, toks[2:120])))
     return "C12:%s:%s" % (toks[:1], d)
 
 
@@ -133,6 +163,9 @@ CLAUSES = {1: "a call returned a connection it must not get (stream over a limit
 def what(tag, toks, d):
     if toks and toks[0] == 0 and len(d) > 2:
         return "swarm scenario step %d: %s" % (d[1], CLAUSES.get(d[2], d))
+    if toks and toks[0] == 1:
+        return "hole-punch decision (%s) breaks the property: relay address dialled / punch not over a relayed conn / success without a direct connection" % {
+            1: "getDirectConnection", 2: "handleNewStream", 3: "directConnect", 4: "netNotifiee.Connected"}.get(toks[1], "?")
     return "monitor diag %s" % d
 
 
